@@ -73,7 +73,9 @@ class LogPublisher:
 
         brokenObservers = []
 
-        for observer in self._observers:
+        # Iterate over a copy: an observer may add or remove observers while
+        # it handles the event, and the others must not be skipped for it.
+        for observer in list(self._observers):
             if trace is not None:
                 trace(observer)
 
